@@ -3192,6 +3192,19 @@ rfbSendFramebufferUpdate(rfbClientPtr cl,
       cl->screen->displayHook(cl);
 
     /*
+     * Only Raw, Zlib and Ultra copy translated pixels verbatim; all other
+     * encoders handle 8, 16 and 32 bits per pixel only.  A client that asked
+     * for a 24-bit format (accepted with LIBVNCSERVER_ALLOW24BPP) gets Raw
+     * instead of rectangles that are announced but never sent.
+     */
+    if (cl->format.bitsPerPixel == 24 &&
+        cl->preferredEncoding != -1 &&
+        cl->preferredEncoding != rfbEncodingRaw &&
+        cl->preferredEncoding != rfbEncodingZlib &&
+        cl->preferredEncoding != rfbEncodingUltra)
+      cl->preferredEncoding = rfbEncodingRaw;
+
+    /*
      * If framebuffer size was changed and the client supports NewFBSize
      * encoding, just send NewFBSize marker and return.
      */
